@@ -530,10 +530,10 @@ def t2_cases(ctx):
     """[(verb, table, tree, stage)]"""
     rng = random.Random(ctx.seed * 7919 + 17)
     tables = [t for _, t in FIXED_TABLES]
-    n_rand = 30 if ctx.quick else 200
+    n_rand = 30 if ctx.quick else 120
     tables += [random_table(rng) for _ in range(n_rand)]
     small = list(all_trees(3 if ctx.quick else 4))  # exhaustive: 66 / 390 trees
-    mid = list(all_trees(5)) if not ctx.quick else None
+    five = [t for t in all_trees(5) if t.count(".") == 5] if not ctx.quick else None  # the 2187 five-node trees
     cases = []
     shared = shared_trees(2 if ctx.quick else 3)
     for ti, tab in enumerate(tables):
@@ -543,9 +543,10 @@ def t2_cases(ctx):
             trees += shared if ("u:" in tab and ti < len(FIXED_TABLES)) else shared[::6]
             trees += [random_tree(rng, rng.choice([4, 4, 5, 6, 6]), lits=(0, 1) if ti % 2 else (0,)) for _ in range(45)]
         else:
-            trees = list(mid) + shared + [random_tree(rng, 6) for _ in range(1500)]
-            if ti < len(FIXED_TABLES):
-                trees += [t for t in all_trees(6) if rng.random() < 0.25]
+            # every table: all trees <= 4 nodes, the shared-operand trees, seeded 5- and 6-node trees;
+            # hand-written tables: all trees <= 5 nodes
+            trees = list(small) + shared + [random_tree(rng, 6) for _ in range(600)]
+            trees += five if ti < len(FIXED_TABLES) else [random_tree(rng, 5) for _ in range(600)]
         for tree in trees:
             for verb in _verbs_for(tab):
                 st = rng.choice([1, 2, 3, 4, 5]) if verb == "optimize" else 5
@@ -553,34 +554,45 @@ def t2_cases(ctx):
     return cases, len(tables)
 
 
+SMALL_FUEL = 10
+
+
 def fam_drivers(ctx):
-    """T2: real drivers on stub classes == model (result tree, firing trace, non-convergence)."""
+    """T2: real drivers on stub classes == model (result tree, firing trace, non-convergence).
+
+    The real driver runs first under a budget of rule calls.  If it finishes, the model is asked with fuel
+    > budget (each unit of model fuel is spent on at least one rule call, so the model cannot give up first)
+    and must answer exactly the same.  If the real driver exceeds the budget (non-terminating rule system,
+    e.g. `rewrite` looping, trees growing for ever) the model is asked with a small fuel only — its work is
+    exponential in the fuel on branching trees — and must either run out of fuel too, or, if it finishes, agree
+    with the real driver re-run under a 40x budget."""
+    global BUDGET
     f = Family("drivers[Expr.rewrite, simplify_once, simplify, lower_once, lower_completely, optimize_until]")
     cases, ntab = t2_cases(ctx)
-    reqs = [f"driver {v} rules={tab} tree={tree} fuel={FUEL}" + (f" stage={st}" if v == "optimize" else "") for v, tab, tree, st in cases]
+    real = _pmap(_run_real_case, cases, chunksize=256)
+    reqs = [f"driver {v} rules={tab} tree={tree} fuel={SMALL_FUEL if c == 'ERR fuel' else FUEL}" + (f" stage={st}" if v == "optimize" else "")
+            for (v, tab, tree, st), c in zip(cases, real)]
     model = drive(reqs)
     code, nontrivial, inputs = [], [], []
-    undecided = 0
+    rerun = 0
     outcomes = collections.Counter()
-    real = _pmap(_run_real_case, cases, chunksize=256)
     for (v, tab, tree, st), m, c in zip(cases, model, real):
         if c == "ERR fuel" and m != "ERR fuel":
-            # the real driver needed more rule calls than the budget but the model finished within its
-            # (larger) fuel: decide with a budget nothing reasonable exceeds
-            global BUDGET
             old, BUDGET = BUDGET, 40 * BUDGET
             try:
                 c = run_real(v, tab, tree, st)
             finally:
                 BUDGET = old
-            undecided += 1
+            rerun += 1
         code.append(c)
         outcomes[c.split(" ")[0] + (" " + c.split(" ")[1] if c.startswith("ERR") else "")] += 1
         nontrivial.append(c != f"OK {tree}" and not c.startswith(f"OK {tree} "))
         inputs.append({"verb": v, "rules": tab, "tree": tree, "stage": st})
     f.compare(inputs, code, model, nontrivial)
     f.note = (f"{ntab} rule tables ({len(FIXED_TABLES)} hand-written incl. non-terminating and dependents-sensitive ones), all trees <= "
-              f"{3 if ctx.quick else 5} nodes over 3 classes + seeded trees of 4-6 nodes (thorough: + a quarter of all 6-node trees for the hand-written tables); outcomes {dict(outcomes)}; rerun with larger budget: {undecided}")
+              f"{3 if ctx.quick else 4} nodes over 3 classes + shared-operand trees + seeded trees of 4-6 nodes (thorough: all trees <= 5 "
+              f"nodes for the hand-written tables); outcomes {dict(outcomes)} ('ERR fuel' = real driver exceeded {BUDGET} rule "
+              f"calls and the model ran out of fuel {SMALL_FUEL}); rerun with larger budget: {rerun}")
     return f
 
 
